@@ -341,3 +341,85 @@ def assert_on_input_rule(m, rid):
                        "implied by the tests before it: for other text the AssertionError escapes the parser instead of a syntax error"
                        % (f.qualname, A.text(t)[:60]), m.loc(f, a))
     return r
+
+
+# =================================================================================================
+# a type switch over the children of a list node covers every class the grammar can put there
+# =================================================================================================
+def type_switch_rule(m, rid):
+    r = RuleResult(rid, "an isinstance chain over the children of a list node whose else-branch raises covers every class the grammar can "
+                        "produce for an element (alternatives are not Python subclasses of the rule class)")
+    r.floor = 1
+    base = m.key("Base", "fparser.two.utils")
+    for (path, q), f in sorted(m.funcs.items()):
+        if "/tests/" in path or "/two/" not in path:
+            continue
+        P = None
+        for n in A.body_nodes(f.node):
+            if not isinstance(n, ast.If):
+                continue
+            tests, cur = [], n
+            while True:
+                tests.append(cur.test)
+                if len(cur.orelse) == 1 and isinstance(cur.orelse[0], ast.If):
+                    cur = cur.orelse[0]
+                else:
+                    els = cur.orelse
+                    break
+            if len(tests) < 2 or not all(isinstance(t, ast.Call) and A.dotted(t.func) == "isinstance" and len(t.args) == 2 for t in tests) \
+                    or not els or not any(isinstance(s, ast.Raise) for s in els):
+                continue
+            if P is None:
+                P = A.parents(f.node)
+            if isinstance(P.get(n), ast.If) and n in P[n].orelse:
+                continue        # an inner link of a chain already handled from its head
+            subject = A.text(tests[0].args[0])
+            if not all(A.text(t.args[0]) == subject for t in tests):
+                continue
+            # the loop that binds the subject and the list class of its container
+            x, loop = n, None
+            while x in P:
+                x = P[x]
+                if isinstance(x, ast.For) and subject in A.assigned_names(x.target):
+                    loop = x
+                    break
+            if loop is None or not (isinstance(loop.iter, ast.Attribute) and loop.iter.attr in ("children", "items")):
+                continue
+            cont = A.text(loop.iter.value)
+            lcls = None
+            from rules import delim_rules as D
+            for t, pol in D.facts_at(f.node, loop, P):
+                for lit, lp in D.expand(t, pol):
+                    if lp and isinstance(lit, ast.Call) and A.dotted(lit.func) == "isinstance" and A.text(lit.args[0]) == cont \
+                            and isinstance(lit.args[1], ast.Name) and lit.args[1].id.endswith("_List"):
+                        lcls = lit.args[1].id
+            r.instances += 1
+            if lcls is None:
+                r.error("%s: the list class of `%s` could not be determined for the type switch on `%s`" % (q, cont, subject))
+                continue
+            elem = lcls[:-5]
+            tested = []
+            for t in tests:
+                a = t.args[1]
+                for e in (a.elts if isinstance(a, ast.Tuple) else [a]):
+                    k = m.class_of_name(f, A.text(e))
+                    if k:
+                        tested.append(k)
+            missing = {}
+            for std in ("f2003", "f2008"):
+                ek = m.std_class(std, elem)
+                if ek is None:
+                    continue
+                for k in m.closure(std, ek):
+                    c = m.classes.get(k)
+                    if c is None or not m.issub(k, base):
+                        continue
+                    builds = m.method(k, "match") is not None or m.is_generated_method(k, "match")
+                    if builds and not any(m.issub(k, t) for t in tested):
+                        missing.setdefault(c["name"], std)
+            r.ob(not missing, "%s: type switch on elements of %s covers %d tested classes" % (q, lcls, len(tested)))
+            if missing:
+                r.fail("%s|type-switch|%s" % (q, ",".join(sorted(missing))), "%s: the isinstance chain over the elements of %s ends in a raise but does not "
+                       "cover %s, which the grammar can produce for <%s> (it is an alternative, not a Python subclass, of a tested class): valid "
+                       "input of that form escapes as the raised internal error" % (q, lcls, sorted(missing), elem), m.loc(f, n))
+    return r
